@@ -812,10 +812,14 @@ B("<option>a<option>b", '''
 ''')
 B("a\x00b", '"ab"')
 B("<td>x<tr><th><caption><col><colgroup><tbody><tfoot><thead><frame><head>y", '"xy"')
-B("<span><body a=1>x", '''
-<span>
-  "x"
-''') if False else None
+Tt("<span><body a=1>x", '''
+<html>
+  <head>
+  <body>
+    a="1"
+    <span>
+      "x"
+''')
 B("<i><b>x</i>y</b>z", '''
 <i>
   <b>
@@ -1212,15 +1216,6 @@ B("<svg><circle cx=1 /><g></g></svg>x", '''
   <svg g>
 "x"
 ''')
-B("<svg viewbox=1 xlink:href=a xml:lang=b xmlns:xlink=c xmlns=d xlink:foo=e>", '''
-<svg svg>
-  viewBox="1"
-  xlink href="a"
-  xlink:foo="e"
-  xml lang="b"
-  xmlns="d"
-  xmlns xlink="c"
-''') if False else None
 B("<svg viewbox=1 xlink:href=a xml:lang=b xmlns:xlink=c xlink:foo=e>", '''
 <svg svg>
   viewBox="1"
@@ -1275,10 +1270,8 @@ B("<svg><desc><b>x</desc>y", '''
 <svg svg>
   <svg desc>
     <b>
-      "x"
-  <b>
-    "y"
-''') if False else None
+      "xy"
+''')
 B("<math><mi><mglyph>x", '''
 <math math>
   <math mi>
@@ -1437,11 +1430,10 @@ Tt("<template><td>a<td>b<tr><td>c", '''
           "a"
         <td>
           "b"
-        <tr>
-          <td>
-            "c"
+        <td>
+          "c"
   <body>
-''') if False else None
+''')
 Tt("<body></template>x<template></body></html><form><form>y", '''
 <html>
   <head>
@@ -1477,6 +1469,286 @@ Tt("<template><div><frameset>", '''
       content
         <div>
   <body>
+''')
+
+# ------------------------------------------------------------------ more template (template.dat)
+Tt("<template>Hello</template>", '''
+<html>
+  <head>
+    <template>
+      content
+        "Hello"
+  <body>
+''')
+Tt("<template></template><div></div>", '''
+<html>
+  <head>
+    <template>
+      content
+  <body>
+    <div>
+''')
+B("<div><template><div><span></template><b>", '''
+<div>
+  <template>
+    content
+      <div>
+        <span>
+  <b>
+''')
+B("<div><template></div>Hello", '''
+<div>
+  <template>
+    content
+      "Hello"
+''')
+B("<div></template></div>x", '''
+<div>
+"x"
+''')
+B("<table><div><template></template></div>", '''
+<div>
+  <template>
+    content
+<table>
+''')
+B("<table><template></template><div></div>", '''
+<div>
+<table>
+  <template>
+    content
+''')
+B("<table>   <template></template></table>", '''
+<table>
+  "   "
+  <template>
+    content
+''')
+B("<table><tr><td><template></template></td></tr></table>", '''
+<table>
+  <tbody>
+    <tr>
+      <td>
+        <template>
+          content
+''')
+B("<table><colgroup><template></template></colgroup></table>", '''
+<table>
+  <colgroup>
+    <template>
+      content
+''')
+B("<table><thead><template><td></template></table>", '''
+<table>
+  <thead>
+    <template>
+      content
+        <td>
+''')
+Tt("<template><a><table><a>", '''
+<html>
+  <head>
+    <template>
+      content
+        <a>
+          <a>
+          <table>
+  <body>
+''')
+Tt("<template><template><col>", '''
+<html>
+  <head>
+    <template>
+      content
+        <template>
+          content
+            <col>
+  <body>
+''')
+Tt("<template></figcaption><sub><table></table>", '''
+<html>
+  <head>
+    <template>
+      content
+        <sub>
+          <table>
+  <body>
+''')
+Tt("<frameset></frameset><template>", '''
+<html>
+  <head>
+  <frameset>
+''')
+Tt("<template><div><frameset><span></span></div><span></span></template>", '''
+<html>
+  <head>
+    <template>
+      content
+        <div>
+          <span>
+        <span>
+  <body>
+''')
+Tt("<body></body><template>", '''
+<html>
+  <head>
+  <body>
+    <template>
+      content
+''')
+Tt("<template><thead></template>", '''
+<html>
+  <head>
+    <template>
+      content
+        <thead>
+  <body>
+''')
+B("<select><template><option></template>x", '''
+<select>
+  <template>
+    content
+      <option>
+  "x"
+''')
+Tt("<html a=b><template><div><html b=c><span>", '''
+<html>
+  a="b"
+  <head>
+    <template>
+      content
+        <div>
+          <span>
+  <body>
+''')
+Tt("<template><div>", '''
+<html>
+  <head>
+    <template>
+      content
+        <div>
+  <body>
+''')
+Tt("<template><tr></tr><div>x</template>", '''
+<html>
+  <head>
+    <template>
+      content
+        <tr>
+        <div>
+          "x"
+  <body>
+''')
+Tt("<template>a<b>b</template>c<i>d", '''
+<html>
+  <head>
+    <template>
+      content
+        "a"
+        <b>
+          "b"
+  <body>
+    "c"
+    <i>
+      "d"
+''')
+
+# ------------------------------------------------------------------ ruby (ruby.dat)
+B("<ruby>a<rb>b<rb></ruby>", '''
+<ruby>
+  "a"
+  <rb>
+    "b"
+  <rb>
+''')
+B("<ruby>a<rb>b<rt></ruby>", '''
+<ruby>
+  "a"
+  <rb>
+    "b"
+  <rt>
+''')
+B("<ruby>a<rb>b<rtc></ruby>", '''
+<ruby>
+  "a"
+  <rb>
+    "b"
+  <rtc>
+''')
+B("<ruby>a<rb>b<span></ruby>c", '''
+<ruby>
+  "a"
+  <rb>
+    "b"
+    <span>
+"c"
+''')
+B("<ruby>a<rtc>b<rb></ruby>", '''
+<ruby>
+  "a"
+  <rtc>
+    "b"
+  <rb>
+''')
+B("<ruby>a<rtc>b<rt>c<rt>d</ruby>", '''
+<ruby>
+  "a"
+  <rtc>
+    "b"
+    <rt>
+      "c"
+    <rt>
+      "d"
+''')
+B("<ruby>a<rtc>b<rp></ruby>", '''
+<ruby>
+  "a"
+  <rtc>
+    "b"
+    <rp>
+''')
+B("<ruby><rtc><ruby>a<rb>b<rt></ruby></ruby>", '''
+<ruby>
+  <rtc>
+    <ruby>
+      "a"
+      <rb>
+        "b"
+      <rt>
+''')
+B("<div><rb>a<rt>b<rtc>c", '''
+<div>
+  <rb>
+    "a"
+    <rt>
+      "b"
+      <rtc>
+        "c"
+''')
+Tt("<!DOCTYPE html>xxx<svg><x><g><a><main><b>", '''
+<!DOCTYPE html>
+<html>
+  <head>
+  <body>
+    "xxx"
+    <svg svg>
+      <svg x>
+        <svg g>
+          <svg a>
+            <svg main>
+    <b>
+''')
+Tt("<!doctype html><p>foo<main>bar<p>baz", '''
+<!DOCTYPE html>
+<html>
+  <head>
+  <body>
+    <p>
+      "foo"
+    <main>
+      "bar"
+      <p>
+        "baz"
 ''')
 
 # ------------------------------------------------------------------ fragments
@@ -1534,9 +1806,10 @@ F("<p>x", "noscript", '"<p>x"', scripting=True)
 F("<p>x</plaintext>", "plaintext", '"<p>x</plaintext>"')
 F("<!--<script>x</script>-->y", "script", '"<!--<script>x</script>-->y"')
 F("a</body>b<!--c--></html>d", "body", '''
-"abd"
+"ab"
 <!-- c -->
-''') if False else None
+"d"
+''')
 F("x<body a=1><html b=2>y", "div", '"xy"')
 F("<tr><td>x", "tbody", '''
 <tr>
@@ -1548,7 +1821,7 @@ F("a<optgroup>b</select>c", "option", '''
 "a"
 <optgroup>
   "bc"
-''') if False else None
+''')
 F("<style>a</style><b>", "style", '"<style>a</style><b>"')
 F("</p><table>a", "p", '''
 <p>
@@ -1567,9 +1840,9 @@ F("<b>x", "table", '''
 F("<title>x</title><body><p>", "head", '''
 <title>
   "x"
-''') if False else None
+<p>
+''')
 
-CASES = [c for c in CASES if c is not None]
 
 # quirks-mode expectations
 QUIRKS = [
@@ -1626,7 +1899,8 @@ TRACES = [
     ("<svg><desc><p>", None, False, ["integration-point"], []),
     ("<template>", None, False, ["template"], []),
     ("<p><table>", None, False, ["quirks-table-close-p-skip"], []),
-    ("<!DOCTYPE html><p><table>", None, False, [], ["quirks-table-close-p-skip", "tree-error"]),
+    ("<!DOCTYPE html><p><table></table>", None, False, [], ["quirks-table-close-p-skip", "tree-error"]),
+    ("<!DOCTYPE html><p><table>", None, False, ["tree-error"], ["quirks-table-close-p-skip"]),
     ("<frameset>", None, False, ["frameset"], []),
     ("<frameset>a b", None, False, ["frameset-text-mixed", "dev:frameset-text"], []),
     ("<frameset> a", None, False, ["frameset-text-mixed"], ["dev:frameset-text"]),
@@ -1745,15 +2019,48 @@ def soup(rnd):
     return "".join(parts)
 
 
+SMALL_POOLS = [
+    "b i a p div table td".split(),
+    "frameset frame noframes html body".split(),
+    "b b b p".split(),
+    "select option optgroup table tr td input".split(),
+    "svg math mi desc p b table annotation-xml".split(),
+    "template table tr td col b".split(),
+    "html head body p".split(),
+]
+
+
 def robustness(n=20000):
     rnd = random.Random(20200601)
     failures = 0
     t0 = time.time()
     all_tags = set()
     all_modes = set()
+    switches = sorted(T.COMPAT_SWITCHES)
+    full = list(NAMES)
     for i in range(n):
+        if i % 4 == 3:
+            NAMES[:] = rnd.choice(SMALL_POOLS)
+        else:
+            NAMES[:] = full
         s = soup(rnd)
         scripting = rnd.random() < 0.3
+        # every third input also runs with a random subset of / all compat switches
+        if i % 3 == 0:
+            compat = frozenset(switches) if rnd.random() < 0.5 else frozenset(
+                x for x in switches if rnd.random() < 0.5)
+            try:
+                r = T.parse_document(s, scripting=scripting, compat=compat)
+                check_tree_invariants(r.root)
+                r = T.parse_fragment(s, context=rnd.choice(CONTEXTS), scripting=scripting,
+                                     compat=compat)
+                check_tree_invariants(r.root)
+            except Exception:   # noqa
+                failures += 1
+                if failures < 10:
+                    import traceback
+                    traceback.print_exc()
+                    print("ROBUSTNESS (compat %r) FAIL input=%r" % (sorted(compat), s))
         try:
             r = T.parse_document(s, scripting=scripting)
             check_tree_invariants(r.root)
@@ -1772,6 +2079,7 @@ def robustness(n=20000):
                 import traceback
                 traceback.print_exc()
                 print("ROBUSTNESS FAIL input=%r" % s)
+    NAMES[:] = full
     undocumented = all_tags - set(T.TRACE_TAGS)
     if undocumented:
         failures += 1
